@@ -46,11 +46,12 @@ const (
 	OSLe
 	ONeg
 	OBNot
-	OZext   // to width w
-	OSext   // to width w
-	OTrunc  // to width w (extract low bits)
-	OConcat // string concat (n-ary)
-	OStrLen // -> BV64 (bytes; ASCII only strings are modelled)
+	OZext       // to width w
+	OSext       // to width w
+	OTrunc      // to width w (extract low bits)
+	OConcat     // string concat (n-ary)
+	OStrLen     // -> BV64 (bytes; ASCII only strings are modelled)
+	OStrIsIdent // Bool: string is a non-empty lower-case identifier
 )
 
 var opName = map[Op]string{
@@ -534,6 +535,19 @@ func appendStr(ts *TermStore, out []*Term, p *Term) []*Term {
 		return out
 	}
 	return append(out, p)
+}
+
+func (ts *TermStore) StrIsIdent(a *Term) *Term {
+	if a.IsConst() {
+		ok := len(a.S) > 0
+		for _, r := range a.S {
+			if r < 'a' || r > 'z' {
+				ok = false
+			}
+		}
+		return ts.Bool(ok)
+	}
+	return ts.mk(OStrIsIdent, SBool, 0, a)
 }
 
 func (ts *TermStore) StrLen(a *Term) *Term {
